@@ -77,6 +77,8 @@ fn materialize(t: &Value, style: u64) -> Vec<u8> {
         "garbage" => b"{\"a\":1} x".to_vec(),
         "notjson" => b"nonsense".to_vec(),
         "badutf8" => vec![0xff, 0xfe, b'{', b'}'],
+        // a well-formed document except for one byte that is not UTF-8 inside a string (Latin-1 e-acute)
+        "badutf8str" => b"{\"a\": \"caf\xe9\"}".to_vec(),
         "junk" => b"JUNK-ON-STDIN".to_vec(),
         // two JSON documents / junk followed by a document on a later line: not ONE JSON text
         "twodocs" => b"1\n2".to_vec(),
